@@ -9,6 +9,7 @@ import Emmet.Driver.CssAbbr
 import Emmet.Driver.Style
 import Emmet.Driver.ExpandG
 import Emmet.Spec.C06
+import Emmet.Driver.Action
 
 /-- model driver: `driver <mode>` reads one request per line on stdin and answers one line per request -/
 def main (args : List String) : IO UInt32 := do
@@ -24,5 +25,6 @@ def main (args : List String) : IO UInt32 := do
   | ["style"] => Drv.Style.main; return 0
   | ["expandg"] => Drv.ExpandG.main; return 0
   | ["resolve"] => Drv.ExpandG.mainResolve; return 0
+  | ["action"] => Drv.Action.main; return 0
   | ["selfcheck"] => IO.println s!"C06.keyOrderAgrees {EmmetProps.keyOrderAgrees}"; return 0
   | _ => IO.eprintln "usage: driver <mode>"; return 2
